@@ -76,14 +76,18 @@ func StartInbandExchange(osenv *rsyncos.Env, opts *rsyncopts.Options, conn io.Re
 
 	rd := bufio.NewReader(conn)
 
-	// send client greeting
-	fmt.Fprintf(conn, "@RSYNCD: %d\n", rsync.ProtocolVersion)
-
 	// read server greeting
+	//
+	// The daemon sends its greeting as soon as the connection is up. Read it
+	// before sending ours: if both ends write first, the exchange deadlocks
+	// on a transport that buffers less than a greeting (e.g. io.Pipe).
 	serverGreeting, err := rd.ReadString('\n')
 	if err != nil {
 		return false, fmt.Errorf("ReadString: %v", err)
 	}
+
+	// send client greeting
+	fmt.Fprintf(conn, "@RSYNCD: %d\n", rsync.ProtocolVersion)
 	serverGreeting = strings.TrimSpace(serverGreeting)
 	const serverGreetingPrefix = "@RSYNCD: "
 	if !strings.HasPrefix(serverGreeting, serverGreetingPrefix) {
